@@ -1158,10 +1158,8 @@ guarantees (operand counts, equal list lengths, `*x` only as an element or argum
 in calls), it EXCLUDES the inputs on which the current colourizer is wrong:
   * a one-element tuple (also as subscript index),
   * an empty tuple as subscript index,
-  * a delegated node on which astor raised (`??`),
-  * a native operator expression (`+`, `not`, `and`, …) that was written as a STRING annotation and
-    spliced in without parent links (`unlinked`); any other unquoted string — a name, a subscript, a
-    comparison — is inside. -/
+  * a delegated node on which astor raised (`??`).
+(`unlinked` is a historical constructor that no longer occurs: see `unstring_counterexample_old`.) -/
 def okTree (T : PrecTable) (star : Bool) : Expr → Bool
   | .name _ => true
   | .dotted _ => true
@@ -1187,7 +1185,7 @@ def okTree (T : PrecTable) (star : Bool) : Expr → Bool
   | .astor a => okA a
   | .unknown => false
   | .absent => false
-  | .unlinked e => (kidOf e).isNone && decide (e.tag = 4) && okTree T false e
+  | .unlinked _ => false
 def okList (T : PrecTable) (star : Bool) : List Expr → Bool
   | [] => true
   | x :: xs => okTree T star x && okList T star xs
@@ -1504,18 +1502,7 @@ theorem derives_core (e : Expr) (pp : Option Nat) (n : Nat) (star : Bool)
     have ih := derives_core x (some LT.highest) 6 false hok.2
       (fun h => absurd h ((tag_of_ok LT false x hok.2).2.2 rfl)) (fits_highest 6 x)
     simp [toDoc, canon, parseDoc, ih]
-  | .unlinked e', hok, _, _ =>
-    simp only [okTree, Bool.and_eq_true, decide_eq_true_eq] at hok
-    obtain ⟨⟨hk, ht⟩, hok'⟩ := hok
-    have hfit' : fits LT none n e' = true := by
-      unfold fits
-      cases h : kidOf e' with
-      | none => rfl
-      | some k => simp [h] at hk
-    have ih := derives_core e' none n false hok' (fun h => by rw [ht] at h; exact absurd h (by decide)) hfit'
-    have htd : (toDoc LT none e').tag = 4 := by rw [tag_toDoc, ht]
-    simp only [toDoc, htd, if_true, canon]
-    exact ih
+  | .unlinked e', hok, _, _ => simp [okTree] at hok
   | .astor a, hok, _, _ =>
     simp only [okTree] at hok
     have h := parseA_ok a LT.highest n hok (rel_highest n)
@@ -1749,24 +1736,18 @@ theorem tuple_kept_counterexample :
     parseDoc 1 (toDoc LT none (.tuple [.starred a])) = none := by
   refine ⟨?_, ?_, ?_, ?_, ?_, ?_, ?_, ?_, ?_, ?_⟩ <;> first | decide +kernel | rfl
 
-/-- a string annotation under an operator: `"a | b" & c` is displayed as `a|b&c`, the text of
-`a | (b & c)` — the spliced-in sub-tree has no parent link, so no parentheses are written
-(`-"a + b"` → `-a+b`, `"a or b" and c` → `a or b and c` likewise); outside `okTree` -/
-theorem unstring_counterexample :
+/-- HISTORICAL (before a1c047d, when `unstring_annotation` spliced parsed strings in without parent
+links): `"a | b" & c` was displayed as `a|b&c`, the text of `a | (b & c)`; `-"a + b"` as `-a+b`;
+`"a or b" and c` as `a or b and c`.  With the links restored the same trees keep their parentheses. -/
+theorem unstring_counterexample_old :
     render LT (.binary .bitAnd (.unlinked (.binary .bitOr a b)) c) = "a|b&c".toList ∧
     render LT (.binary .bitOr a (.binary .bitAnd b c)) = "a|b&c".toList ∧
     render LT (.unary .usub (.unlinked (.binary .add a b))) = "-a+b".toList ∧
     render LT (.boolop .and [.unlinked (.boolop .or [a, b]), c]) = "a or b and c".toList ∧
-    okTree LT false (.binary .bitAnd (.unlinked (.binary .bitOr a b)) c) = false := by
-  refine ⟨?_, ?_, ?_, ?_, ?_⟩ <;> decide +kernel
-
-/-- non-vacuity: the usual forward references (`"Foo" | None`, `Optional["a | b"]` where the
-subscript re-links everything below it) are inside `okTree` and keep their meaning -/
-example :
-    okTree LT false (.binary .bitOr (.unlinked (.name "Foo".toList)) (.constName .none)) = true ∧
-    render LT (.binary .bitOr (.unlinked (.name "Foo".toList)) (.constName .none)) = "Foo|None".toList ∧
-    render LT (.subscript (.name "Optional".toList) (.binary .bitOr a b)) = "Optional[(a|b)]".toList := by
-  refine ⟨?_, ?_, ?_⟩ <;> decide +kernel
+    render LT (.binary .bitAnd (.binary .bitOr a b) c) = "(a|b)&c".toList ∧
+    render LT (.unary .usub (.binary .add a b)) = "-(a+b)".toList ∧
+    okTree LT false (.binary .bitAnd (.binary .bitOr a b) c) = true := by
+  refine ⟨?_, ?_, ?_, ?_, ?_, ?_, ?_⟩ <;> decide +kernel
 
 end examples
 
